@@ -198,3 +198,26 @@ pub fn drive(a: &Args) {
     }
     println!("{}", json!({"runs": runs}));
 }
+
+thread_local! {
+    static LAST: std::cell::RefCell<Option<(String, String)>> = std::cell::RefCell::new(None);
+}
+
+/// a hook that records the panic instead of printing (used where panics are caught: no simulation runs)
+pub fn install_quiet_hook() {
+    std::panic::set_hook(Box::new(|info| {
+        let loc = info.location().map(|l| format!("{}:{}:{}", l.file(), l.line(), l.column())).unwrap_or_default();
+        let msg = if let Some(s) = info.payload().downcast_ref::<&str>() {
+            s.to_string()
+        } else if let Some(s) = info.payload().downcast_ref::<String>() {
+            s.clone()
+        } else {
+            "?".to_string()
+        };
+        LAST.with(|p| *p.borrow_mut() = Some((msg, loc)));
+    }));
+}
+
+pub fn take_panic_info() -> (String, String) {
+    LAST.with(|p| p.borrow_mut().take()).unwrap_or_default()
+}
